@@ -109,10 +109,10 @@ add(Job('is_ipv6', 'harness/is_ipv6.c', enforce='is_ipv6', replace=['is_ipv4'], 
         expect=['postcondition', 'assigns', 'unwind'], functions=['is_ipv6'], files=['src/is_ipv4_ipv6.c'], assumptions=[A1, A5, A9],
         bounded='input length <= 45 bytes (fixed 46-byte object); within that bound the loop is fully unwound (18, unwinding assertion discharged), so the result is complete for all inputs up to 45 bytes and says nothing about longer ones',
         note='no loop invariant: the loop runs <= 17 times (unwinding assertion is an obligation). A length lemma for longer inputs (design-probes/is_ipv6_len_attempt.c) ran out of memory and is not part of the claim'))
-add(Job('is_ipv6_anylen', 'harness/is_ipv6.c', enforce='is_ipv6', replace=['is_ipv4'], timeout=4200, reach=4, mem_est=22, mem_gb=30, solvers=('minisat2+ra',), defines=['-DIPV6_ANYLEN'],
+add(Job('is_ipv6_anylen', 'harness/is_ipv6.c', enforce='is_ipv6', replace=['is_ipv4'], timeout=6000, reach=4, mem_est=22, mem_gb=30, solvers=('minisat2+ra',), defines=['-DIPV6_ANYLEN'],
         unwindset=[('is_ipv6_wrapped_for_contract_checking.0', 18)],
         expect=['postcondition', 'assigns', 'unwind'], functions=['is_ipv6'], files=['src/is_ipv4_ipv6.c'], assumptions=[A1, A5, A9],
-        note='the same contract as job is_ipv6 with an input of every length (object of g_len+1 bytes, g_len <= 2^31-16): the loop runs <= 17 times whatever the length (unwinding assertion is an obligation), so this is not a bounded result. 26 min / 18 GB with array constraints added on demand (--refine-arrays); thorough tier only'))
+        note='the same contract as job is_ipv6 with an input of every length (object of g_len+1 bytes, g_len <= 2^31-16): the loop runs <= 17 times whatever the length (unwinding assertion is an obligation), so this is not a bounded result. 46 min / 18 GB (23 min before the reject direction was added to the contract) with array constraints added on demand (--refine-arrays); thorough tier only'))
 add(Job('is_ipaddr', 'harness/is_ipaddr.c', enforce='is_ipaddr', replace=['is_ipv4', 'is_ipv6'], timeout=300, reach=2,
         expect=['postcondition', 'assigns'], functions=['is_ipaddr'], files=['src/is_ipv4_ipv6.c'], assumptions=[A3, A9]))
 
